@@ -2,6 +2,7 @@ package harness
 
 import (
 	"context"
+	"regexp"
 	"errors"
 	"fmt"
 	"sort"
@@ -326,7 +327,7 @@ func execStore(t *testing.T, sc *ConcScenario, choose chooser) *execResult {
 		fn(w, s, recs, res)
 	}
 	if res.viol != nil {
-		classifyConc(sc, recs, res.viol)
+		classifyConc(sc, recs, res.viol, init, finals)
 	}
 	func() {
 		defer func() { recover() }()
@@ -345,15 +346,28 @@ func overlap(a, b callRec) bool {
 	return a.Call <= b.Ret && b.Call <= a.Ret
 }
 
+var digitsRe = regexp.MustCompile(`[0-9]+`)
+
 // classifyConc evaluates trace predicates for known-finding matching.
-func classifyConc(sc *ConcScenario, recs []callRec, v *Violation) {
+func classifyConc(sc *ConcScenario, recs []callRec, v *Violation, init map[string]string, finals []callRec) {
 	isUpd := func(k OpKind) bool { return k == OpPut || k == OpRemove }
 	var trig []string
-	sameKey, prefixPair := false, false
+	sameKey, prefixPair, idxGCvsCall, priGCvsUpd := false, false, false, false
 	for i := range recs {
 		for j := i + 1; j < len(recs); j++ {
 			a, b := recs[i], recs[j]
-			if a.Thread == b.Thread || !isUpd(a.Op.Kind) || !isUpd(b.Op.Kind) || !overlap(a, b) {
+			if a.Thread == b.Thread || !overlap(a, b) {
+				continue
+			}
+			for _, p := range [][2]callRec{{a, b}, {b, a}} {
+				if p[0].Op.Kind == OpIdxGC && isMapOp(p[1].Op.Kind) {
+					idxGCvsCall = true
+				}
+				if p[0].Op.Kind == OpPriGC && isUpd(p[1].Op.Kind) {
+					priGCvsUpd = true
+				}
+			}
+			if !isUpd(a.Op.Kind) || !isUpd(b.Op.Kind) {
 				continue
 			}
 			if a.Key == b.Key {
@@ -371,8 +385,62 @@ func classifyConc(sc *ConcScenario, recs []callRec, v *Violation) {
 	if prefixPair {
 		trig = append(trig, "remove-concurrent-with-update-in-same-bucket")
 	}
+	if idxGCvsCall && v.Symptom == "call-error" {
+		trig = append(trig, "call-overlaps-index-gc")
+	}
+	if priGCvsUpd && v.Symptom == "not-linearizable" {
+		// did a key fall back to the value it had before the concurrent phase
+		// although an acknowledged update changed it?
+		reverted := false
+		for _, f := range finals {
+			if f.Op.Kind != OpGet {
+				continue
+			}
+			iv, ip := init[f.Key]
+			if f.Found != ip || (ip && f.Val != iv) {
+				continue
+			}
+			for _, r := range recs {
+				if r.Key == f.Key && r.Returned && r.Err == "" && ((r.Op.Kind == OpPut && (!ip || string(values[r.Op.V]) != iv)) || (r.Op.Kind == OpRemove && r.Removed)) {
+					reverted = true
+				}
+			}
+		}
+		if reverted {
+			trig = append(trig, "update-overlaps-primary-gc+key-reverted-to-pre-update-value")
+		}
+	}
+	if v.Symptom == "not-linearizable" {
+		// a read that came back empty while it overlapped both a primary GC
+		// cycle and an update of the same key by another thread
+		isRead := func(k OpKind) bool { return k == OpGet || k == OpHas || k == OpGetSize }
+		for _, r := range recs {
+			if !isRead(r.Op.Kind) || r.Found {
+				continue
+			}
+			gc, upd := false, false
+			for _, o := range recs {
+				if o.Thread == r.Thread || !overlap(r, o) {
+					continue
+				}
+				if o.Op.Kind == OpPriGC {
+					gc = true
+				}
+				if isUpd(o.Op.Kind) && o.Key == r.Key {
+					upd = true
+				}
+			}
+			if gc && upd {
+				trig = append(trig, "empty-read-overlaps-primary-gc-and-update-of-same-key")
+				break
+			}
+		}
+	}
 	if len(trig) > 0 {
 		v.Trigger = strings.Join(trig, "+")
+	}
+	if strings.HasPrefix(v.Culprit, "err:") {
+		v.Culprit = digitsRe.ReplaceAllString(v.Culprit, "N")
 	}
 }
 
@@ -448,6 +516,110 @@ func c05Scenarios(tier string) []*ConcScenario {
 					}
 					sc := &ConcScenario{Prop: "C05", Cfg: c, Init: in.ops, Threads: ths, Bound: bound, Exec: execStore}
 					sc.Name = fmt.Sprintf("c05/%s/%s/%s", c.String(), in.name, progString(ths))
+					sc.Desc = fmt.Sprintf("init %s [%s]; %s", in.name, opsString(in.ops), progString(ths))
+					scs = append(scs, sc)
+				}
+			}
+		}
+	}
+	return scs
+}
+
+// ---- C06: collectors as threads ----
+
+// reopenFinal: after quiescence, Flush + Close + reopen (rescan) must read the
+// same as the quiescent final reads did.
+func reopenFinal(w *World, s *Sched, recs []callRec, res *execResult) {
+	if res.viol != nil {
+		return
+	}
+	before := observeStore(w)
+	if err := w.S.Flush(); err != nil {
+		res.viol = viol("call-error", "Flush after quiescence: %v", err)
+		res.viol.Culprit = "err:" + err.Error()
+		return
+	}
+	if err := w.Close(); err != nil {
+		res.viol = viol("call-error", "Close after quiescence: %v", err)
+		return
+	}
+	w.FS.RemoveRaw(idxPath + ".buckets")
+	if err := w.Open(); err != nil {
+		res.viol = viol("open-error", "reopen after quiescence: %v", err)
+		return
+	}
+	after := observeStore(w)
+	for i := range before {
+		if before[i] != after[i] {
+			res.viol = viol("key-lost", "after Flush+Close+reopen a read changed: %s became %s", before[i], after[i])
+			if strings.Contains(before[i], ":false:") {
+				res.viol.Symptom = "key-resurrected"
+			}
+			return
+		}
+	}
+}
+
+func c06Scenarios(tier string) []*ConcScenario {
+	G1 := namedInit{"G1-overwrites", []Op{P(0, 1), opF, P(1, 1), opF, P(4, 1), opF, P(0, 2), opF, P(1, 2), opF}}
+	G2 := namedInit{"G2-removes", []Op{P(0, 1), opF, P(1, 1), opF, P(4, 1), opF, R(0), opF, P(0, 2), opF}}
+	G3 := namedInit{"G3-mixed-reopened", []Op{P(0, 1), P(1, 1), opF, P(0, 2), opF, R(1), opF, P(4, 1), opF, {Kind: OpReopen, A: 0}, P(1, 2), opF}}
+	inits := []namedInit{G1, G2}
+	gcs := [][]Op{
+		{{Kind: OpIdxGC, B: true}},
+		{{Kind: OpPriGC, A: 0}},
+		{{Kind: OpPriGC, A: 85}},
+	}
+	callers := [][]Op{
+		{G(0)},
+		{G(1), Z(4)},
+		{P(0, 3)},
+		{R(1)},
+		{P(0, 3), opF},
+	}
+	cfgs := []Config{cfg("mh", false, 8, 1, 1)}
+	bound := 2
+	if tier != "quick" {
+		inits = append(inits, G3)
+		cfgs = append(cfgs, cfg("mh", false, 8, 48, 48), cfg("mh", false, 8, 1, 48))
+		gcs = append(gcs, []Op{{Kind: OpIdxGC, B: false}}, []Op{{Kind: OpIdxGC, B: true}, {Kind: OpPriGC, A: 0}})
+		callers = append(callers, []Op{H(1), G(0)}, []Op{R(0), P(0, 3)})
+	}
+	var scs []*ConcScenario
+	// three threads: a reader, a flush that supersedes what the reader is
+	// about to read, and the collector that reaps the superseded data
+	G1u := namedInit{"G1-overwrites+unflushed", append(append([]Op{}, G1.ops...), P(0, 3), P(1, 3))}
+	for _, c := range cfgs {
+		for _, gc := range gcs {
+			rds := [][]Op{{G(0)}}
+			if tier != "quick" {
+				rds = append(rds, []Op{Z(1)})
+			}
+			for _, rd := range rds {
+				ths := [][]Op{gc, rd, {opF}}
+				sc := &ConcScenario{Prop: "C06", Cfg: c, Init: G1u.ops, Threads: ths, Bound: bound, Exec: execStore,
+					Extra: map[string]any{"final": reopenFinal}}
+				sc.Name = fmt.Sprintf("c06/%s/%s/%s", c.String(), G1u.name, progString(ths))
+				sc.Desc = fmt.Sprintf("init %s [%s]; %s", G1u.name, opsString(G1u.ops), progString(ths))
+				scs = append(scs, sc)
+			}
+			// the reader's bucket is not in any pool: it holds a disk position
+			ths := [][]Op{gc, {G(4)}, {P(4, 3), opF}}
+			sc := &ConcScenario{Prop: "C06", Cfg: c, Init: G1.ops, Threads: ths, Bound: bound, Exec: execStore,
+				Extra: map[string]any{"final": reopenFinal}}
+			sc.Name = fmt.Sprintf("c06/%s/%s/%s", c.String(), G1.name, progString(ths))
+			sc.Desc = fmt.Sprintf("init %s [%s]; %s", G1.name, opsString(G1.ops), progString(ths))
+			scs = append(scs, sc)
+		}
+	}
+	for _, c := range cfgs {
+		for _, in := range inits {
+			for _, gc := range gcs {
+				for _, cl := range callers {
+					ths := [][]Op{gc, cl}
+					sc := &ConcScenario{Prop: "C06", Cfg: c, Init: in.ops, Threads: ths, Bound: bound, Exec: execStore,
+						Extra: map[string]any{"final": reopenFinal}}
+					sc.Name = fmt.Sprintf("c06/%s/%s/%s", c.String(), in.name, progString(ths))
 					sc.Desc = fmt.Sprintf("init %s [%s]; %s", in.name, opsString(in.ops), progString(ths))
 					scs = append(scs, sc)
 				}
